@@ -91,6 +91,10 @@ class Stage:
                              % (os.path.join(CONTRACTS, contract), mod))
                 self.injected.append((repo_file, contract, mod))
                 entries += re.findall(r"replay_table!\(\s*(\w+)\s*;", open(os.path.join(CONTRACTS, contract)).read())
+        # generated certificates (stubs first; real ones are produced by pregen steps)
+        self.gen = os.path.join(d, "gen")
+        shutil.copytree(os.path.join(CONTRACTS, "gen_stub"), self.gen)
+        ENV["VERIF_GEN_DIR"] = self.gen
         # replay crate (native, repository toolchain, no dev-dependencies)
         rd = os.path.join(d, "verif-replay")
         os.makedirs(os.path.join(rd, "src"))
@@ -255,6 +259,21 @@ def run_kani(stage, pid, names, extra_flags, timeout_s, jobs, playback=False):
     return res, out, wall, " ".join(cmd)
 
 
+def native_run(stage, entry, name):
+    """Build the native binary and run a generator entry (no values); returns stdout or raises."""
+    env = dict(ENV)
+    env["RUSTFLAGS"] = "--cfg verif_replay"
+    tdir = os.path.join(stage.dir, "target-replay")
+    b = subprocess.run(["cargo", "build", "--offline", "-p", "verif-replay", "--target-dir", tdir],
+                       cwd=stage.dir, env=env, capture_output=True, text=True)
+    if b.returncode != 0:
+        raise Undecided("native build of the staged crate failed (certificate generation):\n" + b.stderr[-2000:])
+    vf = os.path.join(stage.dir, "empty.txt")
+    open(vf, "w").close()
+    r = subprocess.run([os.path.join(tdir, "debug", "verif-replay"), entry, name, vf], capture_output=True, text=True, timeout=600)
+    return r.stdout
+
+
 def native_replay(stage, entry, name, values):
     """Build the staged crate natively (repository toolchain, --cfg verif_replay) and run one harness
     on concrete values.  Returns dict(reproduced, violated, panic, raw)."""
@@ -325,7 +344,9 @@ def check(pid, tier, seed):
     stage = Stage([pid])
     try:
         stage.build()
-        names = select(pid, tier, seed)
+        if cfg.get("pregen"):
+            cov["certificates"] = cfg["pregen"](stage, native_run)
+        names = [n for n in select(pid, tier, seed) if not n.startswith("gen_")]
         entry_of = dict(list_harnesses(pid))
         canaries = [n for n in names if n.endswith("_canary")]
         jobs = int(os.environ.get("VERIF_JOBS", "16"))
